@@ -289,9 +289,12 @@ def _runs(attrs):
         i = j + 1
 
 
-def glat_gloc(glyph_attrs, nattrs, version=1, long_offsets=False, attr_ids=False, octaboxes=None, glat_flags=None):
+def glat_gloc(glyph_attrs, nattrs, version=1, long_offsets=False, attr_ids=False, octaboxes=None, glat_flags=None, run_style='max', dense=False):
     """glyph_attrs: list of {attr id: value}; octaboxes: optional list (per glyph) of None or
-    dict(bitmap=uint16, diag=(4 bytes), sub=[8 bytes per set bit])  (Glat v3 only)."""
+    dict(bitmap=uint16, diag=(4 bytes), sub=[8 bytes per set bit])  (Glat v3 only).
+    run_style: 'max' (maximal runs, what compilers emit) | 'single' (one run per attribute) | 'split' (runs cut in two) - all legal and
+    equivalent; dense: attributes the glyph does not set are stored explicitly as 0 (the default), which makes entries long
+    ('all' = every glyph, 'odd' = glyphs with odd ids, 'late' = glyph ids >= 3: glyph 0, which every face loads at once, stays short)."""
     if version >= 3:
         glat = be32(0x00030000) + be32(glat_flags if glat_flags is not None else (1 if octaboxes else 0))
     else:
@@ -300,12 +303,20 @@ def glat_gloc(glyph_attrs, nattrs, version=1, long_offsets=False, attr_ids=False
     for gi, a in enumerate(glyph_attrs):
         locs.append(len(glat))
         a = dict(a) or {0: 0}
+        if dense == 'all' or dense is True or (dense == 'odd' and gi % 2 == 1) or (dense == 'late' and gi >= 3):
+            for k in range(min(nattrs, 250)):
+                a.setdefault(k, 0)
         if version >= 3:
             ob = (octaboxes[gi] if octaboxes else None) or dict(bitmap=0, diag=(0, 255, 0, 255), sub=[])
             glat += be16(ob['bitmap']) + u8(*ob['diag'])
             for sb in ob['sub']:
                 glat += u8(*sb)
-        for first, vals in _runs(a):
+        runs = list(_runs(a))
+        if run_style == 'single':
+            runs = [(first + i, [v]) for first, vals in runs for i, v in enumerate(vals)]
+        elif run_style == 'split':
+            runs = [piece for first, vals in runs for piece in (((first, vals[:(len(vals) + 1) // 2]), (first + (len(vals) + 1) // 2, vals[(len(vals) + 1) // 2:])) if len(vals) > 1 else ((first, vals),))]
+        for first, vals in runs:
             while vals:
                 chunk = vals[:255]
                 glat += (u8(first, len(chunk)) if version == 1 else be16(first, len(chunk))) + be16(*chunk)
